@@ -72,10 +72,10 @@ PROPS['C05'] = dict(level='other', level_text='x', level_note='x', technique='x'
 # =========================================================================== C13 detect_alphabet
 A_LOG = 'LOG-axioms: libm log() assumed within 1e-9 of the mathematical value for the 5 constants detect_alphabet evaluates (contracts/stubs_log.h)'
 A_REPS = ('histogram restricted to 13 representative positions (3 letters shared by both models, U/u, 3 protein-only letters, 2 letters in neither model, 3 non-letter characters); '
-          'each count symbolic in 0..1e9; the other 115 entries are 0')
+          'each count symbolic in 0..4095 (quick) / 0..1e6 (thorough); the other 115 entries are 0')
 for pm in (1, 2):
     Q(id='C13.detect_alphabet.premise%d' % pm, props=['C13', 'C04'] + (['C14'] if pm == 1 else []), cls='B', harness='c13_detect_alphabet.c', entry='h_c13_detect',
-      mode='wrap', unwind=130, timeout=2400, defs=['-DKV_PREMISE=%d' % pm], funcs=['detect_alphabet'],
+      mode='wrap', unwind=130, timeout=2400, defs=['-DKV_PREMISE=%d' % pm, '-DKV_MAXCOUNT=4095'], funcs=['detect_alphabet'],
       trusted=[TRUST_MSG], assumptions=[A_LOG, A_REPS, A_FLOAT, A_WRAP], native_srcs=['lib/src/tldevel.c', 'lib/src/msa_alloc.c', 'lib/src/alphabet.c'])
 PROPS['C13'] = dict(level='other', level_text='x', level_note='x', technique='x')
 
@@ -105,3 +105,54 @@ Q(id='C17.exact', props=['C17'], cls='B', harness='c17_msa_compare.c', entry='h_
   native_srcs=['lib/src/tldevel.c', 'lib/src/msa_check.c', 'lib/src/msa_op.c', 'lib/src/msa_alloc.c', 'lib/src/alphabet.c'],
   trusted=[TRUST_MSG, 'qsort: insertion-sort stub calling the real comparator (contracts/stubs_qsort.h)', 'isalpha/toupper/strncmp/strnlen: CBMC library models'],
   assumptions=[A_NOFAIL, A_WRAP, A_FLOAT, 'bounded: 2-3 rows, widths 2-4, symbols {A,c,-,.}; alignments passed in FINAL state (finalise_alignment is covered by C01)'])
+
+# =========================================================================== C11
+Q(id='C11.bpm', props=['C11'], cls='P', harness='c11_bpm.c', entry='h_c11_bpm',
+  mode='dfcc', enforce=['bpm'], loop_contracts=True, loops_files=['bpm.bpm.loops'], unwind=70, timeout=3600, replayable=False,
+  solver=['--sat-solver', 'cadical'], mem_gb=24,
+  funcs=['bpm'], trusted=[TRUST_MSG],
+  assumptions=['text length 0..100000 (KV_MAXN, only bounds the size of the is_fresh object; the loop is closed by its invariant)',
+               'data invariant instance: each text symbol read is < 13 (internal codes of the distance alphabets, proved at convert_msa_to_internal: s[j] < L, L <= 13)',
+               'Sellers column recurrence (contracts/bpm.contracts.h) is taken as the definition of "minimum over all substrings of the edit distance"'])
+PROPS['C11'] = dict(level='other', level_text='x', level_note='x', technique='x')
+
+# =========================================================================== C01 / C10 weave
+def _lens_options(n, p):
+    """member lengths of a completed group of n sequences and width p (a group of one is the bare sequence);
+    only combinations for which a group without all-gap column exists (sum of lengths >= width)"""
+    import itertools
+    if n == 1:
+        return [(p,)]
+    return [t for t in itertools.product(range(1, p + 1), repeat=n) if sum(t) >= p and max(t) <= p]
+
+
+def _weave_shapes(tier):
+    out = []
+    if tier == 'quick':
+        pls, groups, maxsum = [1, 2, 3], [(1, 1), (1, 2), (2, 1), (2, 2)], 5
+    else:
+        pls, groups, maxsum = [1, 2, 3, 4], [(1, 1), (1, 2), (2, 1), (2, 2), (3, 1), (1, 3)], 7
+    for na, nb in groups:
+        for pa in pls:
+            for pb in pls:
+                if pa + pb > maxsum:
+                    continue
+                if na + nb >= 4 and tier != 'quick' and pa + pb > 6:
+                    continue
+                for la in _lens_options(na, pa):
+                    for lb in _lens_options(nb, pb):
+                        for L in range(max(pa, pb), pa + pb):
+                            lens = '{' + ','.join(str(x) for x in la + lb) + '}'
+                            out.append(dict(name='na%d_nb%d_pla%d_plb%d_lens%s_L%d' % (na, nb, pa, pb, ''.join(str(x) for x in la + lb), L),
+                                            defs=dict(KV_NA=na, KV_NB=nb, KV_PLA=pa, KV_PLB=pb, KV_L=L, KV_LENS=lens)))
+    return out
+Q(id='C01.weave', props=['C01', 'C10', 'C05'], cls='B', harness='c01_weave.c', entry='h_c01_weave', shapes=_weave_shapes,
+  mode='wrap', unwind=12, timeout=900, loops_files=['weave.loops', 'aln_run.loops'], shrink=True,
+  funcs=['do_align', 'add_gap_info_to_path_n', 'mirror_path_n', 'make_seq', 'update_gaps', 'init_alnmem', 'alloc_aln_mem', 'resize_aln_mem'],
+  srcs=['lib/src/weave_alignment.c', 'lib/src/aln_mem.c'],
+  native_srcs=['lib/src/tldevel.c', 'lib/src/weave_alignment.c', 'lib/src/aln_mem.c'],
+  trusted=[TRUST_MSG, 'aln_runner replaced by its contract as a stub: writes ANY monotone partial matching into m->path (what the DP components of C07 establish)',
+           'make_profile_n / set_gap_penalties_n / update_n replaced by frame-only stubs (they touch only profile buffers)'],
+  assumptions=[A_NOFAIL, A_WRAP, 'bounded: groups of 1-2 (thorough 1-3) members, group widths 1-3 (thorough 1-4); member lengths and the merged width L are enumerated as concrete shapes (case split), gap vectors and DP result symbolic; identity substitution of path[0] by the case constant KV_L in three malloc sizes (contracts/weave.loops, aln_run.loops)'])
+PROPS['C01'] = dict(level='other', level_text='x', level_note='x', technique='x')
+PROPS['C10'] = dict(level='other', level_text='x', level_note='x', technique='x')
